@@ -228,7 +228,7 @@ func sweepPrograms(tier string) []program {
 		add(0, all)
 		add(1, all)
 		add(2, all)
-		add(3, gransNamed("vm", "fmt", "match", "concat"))
+		add(3, gransNamed("vm", "fmt", "concat"))
 	} else {
 		q := gransNamed("vm", "fmt", "find", "load", "utf8", "match", "concat")
 		add(0, all)
